@@ -9,6 +9,8 @@ CHECKS = {
     "C15": [("R-GLOBAL", "r_global", "run_global", ("quick", "thorough"))],
     "C04": [("R-ALLOC.who", "r_global", "run_alloc_who", ("quick", "thorough")),
             ("R-TMP", "r_tmp", "run", ("quick", "thorough"))],
+    "C17": [("R-STREAM", "r_stream", "run", ("quick", "thorough")),
+            ("R-TMP.io", "r_tmp", "run_io", ("quick", "thorough"))],
     "C14": [("R-PURE", "r_assert", "run_pure", ("quick", "thorough")),
             ("R-CONSTASSERT", "r_assert", "run_constassert", ("quick", "thorough")),
             ("R-TMP.modes", "r_tmp", "run_modes", ("quick", "thorough"))],
@@ -22,6 +24,7 @@ RULES = {
     "R-PURE": ("r_assert", "run_pure"),
     "R-CONSTASSERT": ("r_assert", "run_constassert"),
     "R-TMP.modes": ("r_tmp", "run_modes"),
+    "R-STREAM": ("r_stream", "run"),
 }
 
 EXPLANATION = {
@@ -34,6 +37,11 @@ EXPLANATION = {
            "(R-PURE), every compile-time-constant assertion holds under each shipped tuning table (R-CONSTASSERT), and no "
            "TMP block is used after TMP_FREE or escapes (the alloca / malloc-reentrant / debug temporaries cannot differ). "
            "Kernel ABI and dispatch-contract rules are added as they are built.  Functional equivalence of kernels is not decided.",
+    "C17": "Static path analysis of every library function that takes a FILE*: each stream transfer (fwrite, fputc, putc, "
+           "fprintf, fread, nested library stream calls) must have its outcome learnt - its result compared with the value the "
+           "call returns on success, or ferror tested - before any return that does not return the failure constant; plus "
+           "the TMP protocol on the I/O functions' failure exits (no leak).  Decides the fault-reporting clause of the property; "
+           "bit-packing and round-trip values are not decided.",
     "C04": "Static analysis of the allocator and temporary-memory discipline on every path of every function.",
 }
 
@@ -50,6 +58,10 @@ ASSUMPTIONS = {
                "input-only (const-pointer) parameters are not read for their _mp_alloc field (fake mpz_t idiom)"],
     "R-CONSTASSERT": ["Clang's constant evaluator (Expr::EvaluateAsInt); blocks the CFG prunes as unreachable are skipped; literal ASSERT (0) markers are skipped"],
     "R-TMP.modes": ["same analysis as R-TMP restricted to the violation kinds whose behaviour differs between alloca, malloc-reentrant and debug temporaries"],
+    "R-STREAM": ["libc failure conventions: fwrite/fread return the item count, fputc/putc/fputs return EOF, fprintf a negative value; "
+                 "library stream functions return 0 on failure",
+                 "getc-based parsers are not covered by this rule (EOF handling is value-dependent)"],
+    "R-TMP.io": ["R-TMP restricted to the units that perform stream / raw / string I/O"],
     "R-ALLOC.who": ["direct calls and address-taking in the linked IR are all the ways to reach the C allocator"],
 }
 
